@@ -65,6 +65,8 @@ func main() {
 		os.Exit(cmdCheck(os.Args[2:]))
 	case "selftest":
 		os.Exit(cmdSelftest(os.Args[2:]))
+	case "tryseeds":
+		os.Exit(cmdTrySeeds(os.Args[2:]))
 	default:
 		usage()
 	}
